@@ -14,7 +14,7 @@ from common import (NCPU, SIM_DIR, TARGET, VERIF, HarnessError, Rng, cargo_env, 
                     log, run_dir, sh, shim_env, short_hash, sim_bin, write_evidence, write_replay, SHIM_SO, LAUNCH)
 from procsim import HEADER_RE, base_env, run_child, split_driver_output
 
-ROUTES = ["lib", "lib_after_others", "cli", "compile_file", "compile_dir", "compile_exit"]
+ROUTES = ["lib", "lib_after_others", "cli", "cli_release", "compile_file", "compile_dir", "compile_exit"]
 FACTORS = ["entropy", "clock", "envvars", "cwd", "spelling", "stdout", "heap_pad", "arg_order", "cpus"]
 
 
@@ -99,6 +99,25 @@ def gen_sim(seed, i, pool):
         if t2 != text:
             companions.append(t2.hex())
     import re
+    # grammars the generator rejects, compiled with the same settings value before the one under study (library route in a
+    # long-lived process only: whatever a failed call leaves behind must not reach the next call).  Each comes with a seeded
+    # choice of directives on its rules, so the failing rule is a @no_skip_ws / @memoize / @leftrec / @position / @string one too.
+    rejected = []
+    if rng.coin(500):
+        import c15
+        table = [t for t in c15.RESTRICTIONS + c15.RATIONALE if not t[2]]
+        for _ in range(rng.range(1, 3)):
+            t2 = rng.choice(table)[1]
+            d = rng.choice(["@no_skip_ws", "@no_skip_ws", "@memoize", "@leftrec", "@position", "@string", None])
+            if d:
+                every = rng.coin(500)
+                lines = []
+                for l in t2.split("\n"):
+                    if re.match(r"[A-Za-z0-9_]+\s*=", l) and (every or rng.coin(500)):
+                        lines.append(d)
+                    lines.append(l)
+                t2 = "\n".join(lines)
+            rejected.append(t2.encode().hex())
     idents = sorted(set(re.findall(r"[A-Za-z_][A-Za-z0-9_]*", text.decode(errors="replace"))))
     leads = sorted(set(re.findall(r"(?:@check|@extern)\(\s*([A-Za-z_]\w*)\s*::", text.decode(errors="replace"))) |
                    set(re.findall(r"->\s*([A-Za-z_]\w*)\s*::", text.decode(errors="replace"))))
@@ -109,7 +128,7 @@ def gen_sim(seed, i, pool):
         e1 = json.loads(json.dumps(envs[0]))
         e1[f] = gen_env(rng, idents, leads)[f]
         envs[1] = e1
-    return {"id": i, "grammar_name": name, "grammar_hex": text.hex(), "derives": derives, "ctx": ctx, "prefix": prefix, "format": fmt, "companions": companions, "envs": envs,
+    return {"id": i, "grammar_name": name, "grammar_hex": text.hex(), "derives": derives, "ctx": ctx, "prefix": prefix, "format": fmt, "companions": companions, "rejected": rejected, "envs": envs,
             # the Compile routes may find a destination made from another grammar by an earlier run (newer than the grammar)
             "prefill_hex": (rng.choice(pool)[1].hex() if rng.coin(250) else None),
             "rustfmt_toml": (rng.choice(["hard_tabs = true\n", "max_width = 60\n", "tab_spaces = 2\n"]) if fmt and rng.coin(600) else None)}
@@ -118,7 +137,7 @@ def gen_sim(seed, i, pool):
 def settings_args(route, sim):
     a = []
     d = sim["derives"]
-    if route == "cli":
+    if route.startswith("cli"):
         if d:
             for x in d:
                 a += ["-d", x]
@@ -131,9 +150,9 @@ def settings_args(route, sim):
 
 
 def route_applicable(route, sim):
-    if route == "lib_after_others" and not sim.get("companions"):
+    if route == "lib_after_others" and not sim.get("companions") and not sim.get("rejected"):
         return False
-    if route == "cli" and (sim["ctx"] or sim["derives"] == []):
+    if route.startswith("cli") and (sim["ctx"] or sim["derives"] == []):
         return False  # the CLI has no flag for a user context and cannot express the empty derive set
     return True
 
@@ -185,6 +204,13 @@ def run_route(route, sim, env, simdir, k, stats=None):
                 f.write(bytes.fromhex(chex))
             comp_paths.append(cp)
 
+    if route == "lib_after_others":
+        for ci, chex in enumerate(sim.get("rejected", [])):
+            cp = os.path.join(proj, "r%d.ebnf" % ci)
+            with open(cp, "wb") as f:
+                f.write(bytes.fromhex(chex))
+            comp_paths.insert(Rng(env.get("arg_order", 0) + ci).below(len(comp_paths) + 1), cp)
+
     def ordered(groups):
         # builder methods are called in a seeded order: the same settings must give the same code
         r = Rng(env.get("arg_order", 0))
@@ -208,8 +234,8 @@ def run_route(route, sim, env, simdir, k, stats=None):
         argv = [sim_bin("driver"), "gen", g_sp] + sa
     elif route == "lib_after_others":
         argv = [sim_bin("driver"), "gen-multi"] + comp_paths + [g_sp] + sa
-    elif route == "cli":
-        argv = [cli_bin()] + sa + [g_sp]
+    elif route.startswith("cli"):
+        argv = [cli_bin(release=route == "cli_release")] + sa + [g_sp]
     elif route == "compile_dir":
         argv = [sim_bin("driver"), "compile", "--dir", spell(os.path.join(proj, "grammars"), env["spelling"], simdir, envdir, cwd)] + ordered(setting_groups())
         dest = os.path.join(proj, "grammars", "g.rs")
@@ -231,7 +257,7 @@ def run_route(route, sim, env, simdir, k, stats=None):
     r = {"crashed": c.crashed(), "status": c.status_word(), "ok": False, "bytes": None, "canary": None, "stderr": c.err[-300:].decode(errors="replace")}
     if c.crashed():
         return r
-    if route == "cli":
+    if route.startswith("cli"):
         r["ok"] = c.rc == 0
         r["bytes"] = c.out if r["ok"] else None
         return r
@@ -329,7 +355,7 @@ def execute_sim(sim, simdir):
                     n = normalise(route, r["bytes"], sim["prefix"])
                     ln = normalise("lib", lib["bytes"], "")
                     if n is None:
-                        viol.append({"class": "route-framing-unexpected", "route": route, "env": k, "detail": "output does not start with header%s" % (" + prefix" if route != "cli" else "")})
+                        viol.append({"class": "route-framing-unexpected", "route": route, "env": k, "detail": "output does not start with header%s" % (" + prefix" if not route.startswith("cli") else "")})
                     elif n != ln:
                         viol.append({"class": "routes-differ", "route": route, "env": k, "detail": first_diff(ln, n)})
     if sim["format"]:
